@@ -670,3 +670,293 @@ Example ex_states_total :
   (* a consumed offset of i64::MAX, which load_consumed_offsets never produces in a debug build *)
   /\ range_states true FbLatest asg [((0, 0), (i64_max, false))] [] [] 100 subs [] = Panic overflow_tag.
 Proof. vm_compute. repeat split; reflexivity. Qed.
+
+(* ====================================================================== *)
+(* the I/O monad: which operations can panic at all                        *)
+(* ====================================================================== *)
+Definition npb {A} (r : res A) : Prop := match r with Panic _ => False | _ => True end.
+Definition mnp {A} (m : M A) : Prop := forall s, npb (fst (m s)).
+
+Lemma npb_bind {A B} (r : res A) (f : A -> res B) : npb r -> (forall a, npb (f a)) -> npb (bind r f).
+Proof. destruct r as [a|e|w]; cbn [bind npb]; auto. Qed.
+Lemma no_panic_npb {A} (r : res A) : no_panic r -> npb r.
+Proof. destruct r; cbn; auto. Qed.
+
+Lemma mnp_ret {A} (a : A) : mnp (ret a). Proof. intros s. exact I. Qed.
+Lemma mnp_fail {A} e : mnp (@fail A e). Proof. intros s. exact I. Qed.
+Lemma mnp_lift {A} (r : res A) : npb r -> mnp (lift r). Proof. intros H s. exact H. Qed.
+Lemma mnp_bind {A B} (m : M A) (f : A -> M B) : mnp m -> (forall a, mnp (f a)) -> mnp (mbind m f).
+Proof.
+  intros Hm Hf s. unfold mbind. specialize (Hm s). destruct (m s) as [[a|e|w] s']; cbn [fst npb] in *; auto.
+  apply Hf.
+Qed.
+Lemma mnp_mtry {A} (m : M A) : mnp m -> mnp (mtry m).
+Proof. intros Hm s. unfold mtry. specialize (Hm s). destruct (m s) as [[a|e|w] s']; cbn [fst npb] in *; auto. Qed.
+Lemma mnp_with_fuel {A} (f : nat -> M A) : (forall n, mnp (f n)) -> mnp (with_fuel f).
+Proof. intros H s. apply H. Qed.
+Lemma mnp_io op : mnp (io op).
+Proof. intros s. unfold io. destruct (script s); exact I. Qed.
+Lemma mnp_get_client : mnp get_client. Proof. intros s. exact I. Qed.
+Lemma mnp_set_client c : mnp (set_client c). Proof. intros s. exact I. Qed.
+Lemma mnp_get_env : mnp get_env. Proof. intros s. exact I. Qed.
+Lemma mnp_pop_any : mnp pop_any. Proof. intros s. unfold pop_any. destruct (anyq s); exact I. Qed.
+Lemma mnp_pop_hosts : mnp pop_hosts. Proof. intros s. unfold pop_hosts. destruct (hostq s); exact I. Qed.
+Lemma mnp_get_fetch_order h : mnp (get_fetch_order h). Proof. intros s. exact I. Qed.
+
+Create HintDb mnp discriminated.
+#[export] Hint Resolve mnp_ret mnp_fail mnp_io mnp_get_client mnp_set_client mnp_get_env mnp_pop_any
+  mnp_pop_hosts mnp_get_fetch_order : mnp.
+
+Ltac mnp_step :=
+  first
+    [ solve [eauto with mnp]
+    | apply mnp_bind; [|intros ?]
+    | apply mnp_with_fuel; intros ?
+    | match goal with
+      | |- mnp (match ?x with _ => _ end) => destruct x
+      | |- mnp (if ?b then _ else _) => destruct b
+      | |- mnp (let '(_, _) := ?x in _) => destruct x
+      end ].
+Ltac mnp_tac := repeat mnp_step.
+
+Lemma mnp_set_cs x : mnp (set_cs x). Proof. unfold set_cs. mnp_tac. Qed.
+Lemma mnp_set_conns x : mnp (set_conns x). Proof. unfold set_conns. mnp_tac. Qed.
+#[export] Hint Resolve mnp_set_cs mnp_set_conns : mnp.
+
+Lemma mnp_write_all h : forall fuel buf, mnp (write_all fuel h buf).
+Proof.
+  induction fuel as [|f IH]; intros buf; destruct buf as [|b buf]; cbn [write_all]; mnp_tac; try apply IH.
+Qed.
+Lemma mnp_read_exact h : forall fuel n acc, mnp (read_exact fuel h n acc).
+Proof.
+  induction fuel as [|f IH]; intros n acc; cbn [read_exact]; mnp_tac; try apply IH.
+Qed.
+#[export] Hint Resolve mnp_write_all mnp_read_exact : mnp.
+Lemma mnp_read_chunks h : forall fuel remaining acc, mnp (read_chunks fuel h remaining acc).
+Proof.
+  induction fuel as [|f IH]; intros remaining acc; cbn [read_chunks]; mnp_tac; cbv zeta; mnp_tac; try apply IH.
+Qed.
+#[export] Hint Resolve mnp_read_chunks : mnp.
+
+Lemma mnp_send h msg : mnp (send h msg). Proof. unfold send. mnp_tac. Qed.
+Lemma mnp_read_exact_alloc h size : mnp (read_exact_alloc h size). Proof. unfold read_exact_alloc. mnp_tac. Qed.
+Lemma mnp_get_response_size h : mnp (get_response_size h).
+Proof. unfold get_response_size. mnp_tac; cbv zeta; mnp_tac. Qed.
+Lemma mnp_new_conn h : mnp (new_conn h). Proof. unfold new_conn. mnp_tac. Qed.
+Lemma mnp_shutdown h : mnp (shutdown h). Proof. unfold shutdown. mnp_tac. Qed.
+#[export] Hint Resolve mnp_send mnp_read_exact_alloc mnp_get_response_size mnp_new_conn mnp_shutdown : mnp.
+Lemma mnp_get_conn h : mnp (get_conn h). Proof. unfold get_conn. mnp_tac. Qed.
+Lemma mnp_get_conn_any : mnp get_conn_any.
+Proof. unfold get_conn_any. mnp_tac; cbv zeta; mnp_tac; apply mnp_mtry; mnp_tac. Qed.
+Lemma mnp_send_request h payload : npb payload -> mnp (send_request h payload).
+Proof. intros H. unfold send_request. apply mnp_bind; [apply mnp_lift; exact H|intros p; mnp_tac]. Qed.
+Lemma mnp_get_response_bytes h : mnp (get_response_bytes h). Proof. unfold get_response_bytes. mnp_tac. Qed.
+#[export] Hint Resolve mnp_get_conn mnp_get_conn_any mnp_get_response_bytes : mnp.
+Lemma mnp_get_response {A} (d : dec A) h : (forall b, npb (d b)) -> mnp (get_response d h).
+Proof.
+  intros H. unfold get_response. apply mnp_bind; [mnp_tac|]. intros b.
+  apply mnp_bind; [apply mnp_lift, H|]. intros [a r]. mnp_tac.
+Qed.
+Lemma mnp_send_receive {A} (d : dec A) h payload :
+  (forall b, npb (d b)) -> npb payload -> mnp (send_receive d h payload).
+Proof.
+  intros Hd Hp. unfold send_receive. apply mnp_bind; [mnp_tac|]. intros _.
+  apply mnp_bind; [apply mnp_send_request; exact Hp|]. intros _. apply mnp_get_response. exact Hd.
+Qed.
+Lemma mnp_next_corr : mnp next_corr. Proof. unfold next_corr. mnp_tac. Qed.
+Lemma mnp_ordered {V} (reqs : list (bytes * V)) : mnp (ordered reqs). Proof. unfold ordered. mnp_tac. Qed.
+#[export] Hint Resolve mnp_next_corr mnp_ordered : mnp.
+
+(* the request encoders used below never panic *)
+Lemma npb_enc_str s : npb (enc_str s). Proof. unfold enc_str. destruct (_ <=? _); exact I. Qed.
+Lemma npb_enc_bytes s : npb (enc_bytes s). Proof. unfold enc_bytes. destruct (_ <=? _); exact I. Qed.
+Lemma npb_enc_opt_bytes o : npb (enc_opt_bytes o).
+Proof. destruct o; cbn [enc_opt_bytes]; [apply npb_enc_bytes|exact I]. Qed.
+Lemma npb_enc_all {A} (f : A -> res bytes) xs : (forall x, npb (f x)) -> npb (enc_all f xs).
+Proof.
+  intros Hf. induction xs as [|x r IH]; cbn [enc_all]; [exact I|].
+  apply npb_bind; [apply Hf|]. intros a. apply npb_bind; [exact IH|]. intros b. exact I.
+Qed.
+Lemma npb_enc_array {A} (f : A -> res bytes) xs : (forall x, npb (f x)) -> npb (enc_array f xs).
+Proof.
+  intros Hf. unfold enc_array. destruct (_ <=? _); [|exact I].
+  apply npb_bind; [apply npb_enc_all; exact Hf|]. intros b. exact I.
+Qed.
+Lemma npb_enc_array_unchecked {A} (f : A -> res bytes) xs : (forall x, npb (f x)) -> npb (enc_array_unchecked f xs).
+Proof. intros Hf. unfold enc_array_unchecked. apply npb_bind; [apply npb_enc_all; exact Hf|]. intros b. exact I. Qed.
+Lemma npb_enc_header key ver corr cid : npb (enc_header key ver corr cid).
+Proof. unfold enc_header. apply npb_bind; [apply npb_enc_str|]. intros c. exact I. Qed.
+Lemma npb_enc_message mg attr m : npb (enc_message mg attr m).
+Proof.
+  unfold enc_message. apply npb_bind; [apply npb_enc_opt_bytes|]. intros k.
+  apply npb_bind; [apply npb_enc_opt_bytes|]. intros v. exact I.
+Qed.
+Lemma npb_enc_partition_produce cz compression p ms : npb (enc_partition_produce cz compression p ms).
+Proof.
+  unfold enc_partition_produce. apply npb_bind; [apply npb_enc_all; intros x; apply npb_enc_message|]. intros buf.
+  apply npb_bind.
+  - destruct (_ =? _); [exact I|]. destruct (_ =? _); apply npb_enc_message.
+  - intros buf'. apply npb_bind; [apply npb_enc_bytes|]. intros b. exact I.
+Qed.
+Lemma npb_enc_produce_req cz corr cid acks timeout compression tps :
+  npb (enc_produce_req cz corr cid acks timeout compression tps).
+Proof.
+  unfold enc_produce_req. apply npb_bind; [apply npb_enc_header|]. intros h.
+  apply npb_bind; [|intros b; exact I]. apply npb_enc_array. intros [t ps].
+  apply npb_bind; [apply npb_enc_str|]. intros n.
+  apply npb_bind; [|intros b; exact I]. apply npb_enc_array_unchecked. intros [p ms].
+  apply npb_enc_partition_produce.
+Qed.
+Lemma npb_enc_group_coordinator_req corr cid group : npb (enc_group_coordinator_req corr cid group).
+Proof.
+  unfold enc_group_coordinator_req. apply npb_bind; [apply npb_enc_header|]. intros h.
+  apply npb_bind; [apply npb_enc_str|]. intros g. exact I.
+Qed.
+
+(* ====================================================================== *)
+(* Producer::send                                                          *)
+(* ====================================================================== *)
+Lemma mnp_produce_exchange corr acks timeout : forall reqs acc, mnp (produce_exchange corr acks timeout reqs acc).
+Proof.
+  induction reqs as [|[h tps] r IH]; intros acc; cbn [produce_exchange]; [mnp_tac|].
+  apply mnp_bind; [mnp_tac|]. intros c. apply mnp_bind; [mnp_tac|]. intros e. cbv zeta.
+  destruct (acks =? 0).
+  - apply mnp_bind; [mnp_tac|]. intros _.
+    apply mnp_bind; [apply mnp_send_request, npb_enc_produce_req|]. intros _. apply IH.
+  - apply mnp_bind.
+    + apply mnp_send_receive; [|apply npb_enc_produce_req]. intros b. apply no_panic_npb, C13_decode_produce.
+    + intros [cr rtps]. apply IH.
+Qed.
+
+Lemma mnp_producer_send_all p recs : mnp (producer_send_all p recs).
+Proof.
+  unfold producer_send_all. apply mnp_bind; [mnp_tac|]. intros corr.
+  apply mnp_bind; [mnp_tac|]. intros c.
+  destruct (send_all_reqs _ _ _ _ _) as [oreqs cntr']. cbv zeta.
+  destruct oreqs as [reqs|]; [|intros s; exact I].
+  apply mnp_bind; [mnp_tac|]. intros reqs'.
+  apply mnp_bind; [apply mnp_produce_exchange|]. intros cf. mnp_tac.
+Qed.
+
+(* what send() insists on: exactly one topic with exactly one partition confirmation *)
+Definition send_confirms_bad (cf : list confirm) : Prop := ~ exists t p x, cf = [(t, [(p, x)])].
+
+Lemma producer_send_panic p r s w :
+  fst (producer_send p r s) = Panic w ->
+  p_acks p <> 0 /\
+  exists cf p' s1, producer_send_all p [r] s = (Ok (cf, p'), s1) /\ send_confirms_bad cf
+                   /\ (w = tag "assertion failed: rs.len() == 1"
+                       \/ w = tag "assertion failed: partition_confirms.len() == 1").
+Proof.
+  unfold producer_send, mbind. pose proof (mnp_producer_send_all p [r] s) as Hn. revert Hn.
+  destruct (producer_send_all p [r] s) as [[[cf p']|e|w'] s1]; cbn [fst npb]; intros Hn; try discriminate; [|contradiction].
+  destruct (p_acks p =? 0) eqn:Ea; [discriminate|]. intros H. split; [lia|].
+  exists cf, p', s1. split; [reflexivity|].
+  destruct cf as [|[t pcs] [|c2 cf']].
+  - split; [intros [t [p0 [x Hx]]]; discriminate|]. inversion H. left. reflexivity.
+  - destruct pcs as [|[p0 x] [|pc2 pcs']].
+    + split; [intros [t' [p1 [x' Hx]]]; discriminate|]. inversion H. right. reflexivity.
+    + destruct x; discriminate.
+    + split; [intros [t' [p1 [x' Hx]]]; discriminate|]. destruct x; inversion H; right; reflexivity.
+  - split; [intros [t' [p1 [x' Hx]]]; discriminate|]. inversion H. left. reflexivity.
+Qed.
+
+(* ---- tie the confirmations to the one produce response that was received ---------------------- *)
+Lemma reorder_nil {V} (o : list bytes) : @reorder V o [] = [].
+Proof. induction o as [|k ks IH]; cbn [reorder take_key]; auto. Qed.
+Lemma reorder_single {V} (o : list bytes) (x : bytes * V) : reorder o [x] = [x].
+Proof.
+  induction o as [|k ks IH]; [reflexivity|]. destruct x as [k' v]. cbn [reorder take_key].
+  destruct (bytes_eqb k' k); [rewrite reorder_nil; reflexivity|exact IH].
+Qed.
+
+Lemma produce_exchange_single corr acks timeout h tps s cf s1 :
+  acks <> 0 -> produce_exchange corr acks timeout [(h, tps)] [] s = (Ok cf, s1) ->
+  exists payload c rtps, send_receive dec_produce_resp h payload s = (Ok (c, rtps), s1)
+     /\ cf = map (fun '(t, ps) => (t, map produce_confirm ps)) rtps.
+Proof.
+  intros Ha. cbn [produce_exchange]. unfold mbind at 1 2. unfold get_client, get_env. cbv beta iota zeta.
+  destruct (acks =? 0) eqn:E; [lia|]. unfold mbind.
+  match goal with |- context [send_receive dec_produce_resp h ?pl s] => set (payload := pl) end.
+  destruct (send_receive dec_produce_resp h payload s) as [[[c rtps]|e|w] s'] eqn:Es; intros H; try discriminate.
+  unfold ret in H. inversion H; subst. exists payload, c, rtps. split; [exact Es|reflexivity].
+Qed.
+
+Lemma producer_send_all_single p r s cf p' s1 :
+  p_acks p <> 0 -> producer_send_all p [r] s = (Ok (cf, p'), s1) ->
+  exists h payload s0 c rtps, send_receive dec_produce_resp h payload s0 = (Ok (c, rtps), s1)
+     /\ cf = map (fun '(t, ps) => (t, map produce_confirm ps)) rtps.
+Proof.
+  intros Ha. unfold producer_send_all. unfold mbind at 1.
+  destruct (next_corr s) as [[corr|e|w] sa]; try discriminate.
+  unfold mbind at 1. unfold get_client at 1. cbv beta iota.
+  cbn [send_all_reqs]. destruct (partition _ _ _ _ _) as [pt cntr'].
+  destruct (find_broker (cs (cl sa)) (r_topic r) pt) as [host|]; [|discriminate].
+  cbn [phost_add]. cbv zeta. unfold ordered, mbind at 1 2.
+  destruct (pop_hosts sa) as [[o|e|w] sb] eqn:Ep; try discriminate.
+  unfold ret at 1. cbv beta iota. rewrite reorder_single.
+  destruct (produce_exchange corr (p_acks p) (p_ack_timeout p) _ [] sb) as [[cf0|e|w] sc] eqn:Ex; try discriminate.
+  unfold ret. intros H. inversion H; subst.
+  destruct (produce_exchange_single _ _ _ _ _ _ _ _ Ha Ex) as [payload [c [rtps [Hs Hc]]]].
+  exists host, payload, sb, c, rtps. split; assumption.
+Qed.
+
+(* the known class: the decoded produce response is not "one topic with one partition" *)
+Definition produce_resp_shape_bad (rtps : list (bytes * list produce_part)) : Prop :=
+  ~ exists t pp, rtps = [(t, [pp])].
+
+Theorem C13_producer_send_outside_known : forall p r s w,
+  fst (producer_send p r s) = Panic w ->
+  p_acks p <> 0 /\
+  exists h payload s0 c rtps s1,
+    send_receive dec_produce_resp h payload s0 = (Ok (c, rtps), s1)    (* what the broker answered *)
+    /\ produce_resp_shape_bad rtps
+    /\ (w = tag "assertion failed: rs.len() == 1"
+        \/ w = tag "assertion failed: partition_confirms.len() == 1").
+Proof.
+  intros p r s w H. destruct (producer_send_panic p r s w H) as [Ha [cf [p' [s1 [Hall [Hbad Hw]]]]]].
+  split; [exact Ha|].
+  destruct (producer_send_all_single p r s cf p' s1 Ha Hall) as [h [payload [s0 [c [rtps [Hs Hc]]]]]].
+  exists h, payload, s0, c, rtps, s1. split; [exact Hs|]. split; [|exact Hw].
+  intros [t [pp Hr]]. apply Hbad. subst rtps cf. cbn [map].
+  exists t, (fst (produce_confirm pp)), (snd (produce_confirm pp)). destruct (produce_confirm pp); reflexivity.
+Qed.
+
+(* witness: the broker answers the produce request with "no topics" *)
+Definition ex_cs : cstate :=
+  {| correlation := 0; brokers := [{| b_node := 1; b_host := tag "h:1" |}];
+     topic_partitions := [(tag "tp", [0])]; group_coordinators := [] |}.
+Definition ex_client_md : client := {| cfg := default_config [tag "h:1"]; cs := ex_cs; conns := [] |}.
+Definition ex_producer : producer :=
+  {| p_client := ex_client_md; p_parts := producer_state ex_cs; p_cntr := 0; p_ack_timeout := 1000; p_acks := 1 |}.
+Definition ex_record : record := {| r_topic := tag "tp"; r_partition := 0; r_key := []; r_value := tag "v" |}.
+Definition ex_send_script (resp : bytes) : list ev_out :=
+  [OConn true; OWrote 1000; OData (enc_i32 (ulen resp)); OData resp].
+
+Theorem C13_producer_send_refuted :
+  exists p r s, fst (producer_send p r s) = Panic (tag "assertion failed: rs.len() == 1").
+Proof.
+  exists ex_producer, ex_record, (ex_st (ex_send_script (enc_i32 1 ++ enc_i32 0)) ex_client_md false).
+  vm_compute. reflexivity.
+Qed.
+(* one topic, two partitions; and the well-formed answer for comparison *)
+Example ex_send_two_partitions :
+  fst (producer_send ex_producer ex_record
+         (ex_st (ex_send_script (enc_i32 1 ++ enc_i32 1 ++ enc_i16 2 ++ tag "tp" ++ enc_i32 2
+                                 ++ (enc_i32 0 ++ enc_i16 0 ++ enc_i64 5) ++ (enc_i32 1 ++ enc_i16 0 ++ enc_i64 6)))
+                ex_client_md false))
+  = Panic (tag "assertion failed: partition_confirms.len() == 1").
+Proof. vm_compute. reflexivity. Qed.
+Example ex_send_ok :
+  is_ok (fst (producer_send ex_producer ex_record
+         (ex_st (ex_send_script (enc_i32 1 ++ enc_i32 1 ++ enc_i16 2 ++ tag "tp" ++ enc_i32 1
+                                 ++ (enc_i32 0 ++ enc_i16 0 ++ enc_i64 5)))
+                ex_client_md false))) = true.
+Proof. vm_compute. reflexivity. Qed.
+(* an answer about a different topic and partition is accepted as long as the shape is 1 x 1 *)
+Example ex_send_other_topic :
+  is_ok (fst (producer_send ex_producer ex_record
+         (ex_st (ex_send_script (enc_i32 99 ++ enc_i32 1 ++ enc_i16 1 ++ tag "x" ++ enc_i32 1
+                                 ++ (enc_i32 7 ++ enc_i16 0 ++ enc_i64 5)))
+                ex_client_md false))) = true.
+Proof. vm_compute. reflexivity. Qed.
